@@ -1,6 +1,7 @@
 import StepModel.ExpressDiagLemmas
 import StepModel.ExpressResolveLemmas
 import StepModel.ExpressWF
+import StepModel.Props.C20
 /-!
 # C04 — all EXPRESS tools give the same, correct verdict on a schema
 
@@ -392,6 +393,154 @@ theorem C04_resolve_errors_reach_verdict (f : File) (lex : List Diag)
     (hp : hasError (lex ++ parseDiags f) = false) (hr : hasError (resolveDiags f).diags = true) :
     (verdict f lex).rejects = true := by
   simp [Verdict.rejects, verdict, hp, hr]
+
+/-! ## the composed statement: exit status 0 ⇔ the file is well formed -/
+
+/-- the parse phase reports no ERROR exactly for files whose schema bodies have no syntax error, declare pairwise distinct
+    names, and have distinct attribute / enumeration-item names inside every declaration -/
+theorem C04_parse_error_iff (p : String) (ss : List Schema) :
+    hasError (parseSchemas p ss) = false ↔ ∀ s ∈ ss, ParseWF s := parseSchemas_noError_iff p ss
+
+/-- pass 1 reports an ERROR for a schema exactly when one of its interface clauses names a schema that does not exist -/
+theorem C04_undefined_schema_iff (f : File) (s : Schema) : hasError (pass1 f s) = false ↔ ClausesWF f s :=
+  pass1_noError_iff f s
+
+/-- pass 2 reports an ERROR for a schema exactly when an imported item does not resolve in the schema it is imported from
+    (as far as that schema can hand it out at this point of the pass) or one visible name stands for two different objects -/
+theorem C04_imports_iff (f : File) (fb : Bool) (s : Schema) : hasError (pass2 f fb s) = false ↔ ImportsWF f fb s :=
+  pass2_noError_iff f fb s
+
+/-- passes 3–5 report an ERROR for a schema exactly when it is not well formed: `SchemaWF` lists, per declaration, the
+    conditions the class theorems above are about (type references denote types, supertypes / subtypes are entities and
+    list each other, no inheritance / SELECT cycle, UNIQUE / INVERSE / redeclaration / rule items resolve, no
+    overloaded attribute, functions called exist).  The hypothesis is the regenerated nesting bound of the inheritance
+    walk (C06-17): inside it the walk is exact -/
+theorem C04_schema_error_iff (p : String) (env : Env) (s : Schema)
+    (hlim : ∀ k, ResolveGen.subsuperDepthLimit = some k → s.decls.length < k) :
+    hasError (pass3 p env s ++ pass4 p env s ++ (pass5 p s).diags) = false ↔ SchemaWF env s :=
+  schema_noError_iff p env s hlim
+
+/-- **the front end accepts a file ⇔ the text is lexically clean and the file is well formed** (`FileWF`: the four
+    statements above over every schema of the run, own file and schema files pulled in alike) -/
+theorem C04_accepts_iff_wellformed (f : File) (lex : List Diag)
+    (hlim : ∀ k, ResolveGen.subsuperDepthLimit = some k → ∀ s ∈ f.schemas, s.decls.length < k) :
+    (verdict f lex).rejects = false ↔ hasError lex = false ∧ FileWF f :=
+  file_accepts_iff f lex hlim
+
+theorem isErr_eq (c : Nat) : isErr c = isErrorCode c := rfl
+
+/-- the sticky "an error occurred" flag after a sequence of reports is: what it was, or an ERROR in the sequence —
+    provided ERRORs cannot be switched off (`C20_errors_always_enabled`) and none of them is the silent code -/
+theorem report_occurred (fwd : Bool) (amb : Ambient) (ov : Overrides)
+    (henab : ∀ c, isErrorCode c = true → enabled ov c = true) :
+    ∀ (ds : List Diag) (r : Run), r.halt = none → (∀ d ∈ ds, d.code ≠ LibErrors.SUBORDINATE_FAILED) →
+      (report fwd amb ov ds r).occurred = (r.occurred || hasError ds)
+  | [], r, _, _ => by simp [report, hasError_nil]
+  | d :: ds, r, hn, hs => by
+    have hd := hs d (List.mem_cons_self ..)
+    have hs' : ∀ x ∈ ds, x.code ≠ LibErrors.SUBORDINATE_FAILED := fun x hx => hs x (List.mem_cons_of_mem _ hx)
+    simp only [report, hasError_cons]
+    by_cases hen : enabled ov d.code = true
+    · simp only [hd, hen, Bool.not_true, Bool.false_eq_true, or_self, if_false]
+      by_cases s3 : severityOf d.code ≥ LibErrors.SEVERITY_DUMP
+      · have e : isErrorCode d.code = true := by simp [isErrorCode, sev, dump_is_error s3]
+        simp [s3, e, dump_is_error s3]
+      · by_cases s2 : severityOf d.code ≥ LibErrors.SEVERITY_EXIT
+        · have e : isErrorCode d.code = true := by simp [isErrorCode, sev, exit_is_error s2]
+          simp [s3, s2, e, exit_is_error s2]
+        · simp only [s3, s2, if_false]
+          refine (report_occurred fwd amb ov henab ds _ (by exact hn) hs').trans ?_
+          simp [isErrorCode, sev, Bool.or_assoc]
+    · have e : isErrorCode d.code = false := by
+        cases h : isErrorCode d.code with
+        | false => rfl
+        | true => exact absurd (henab _ h) hen
+      simp only [Bool.not_eq_true] at hen
+      simp only [hen, Bool.not_false, or_true, if_true, e, Bool.false_or]
+      exact report_occurred fwd amb ov henab ds r hn hs'
+
+/-- **every tool exits 0 exactly on well-formed files**: for each of the four tools, with any admissible warning switches,
+    the exit status of the run over the model's diagnostics for `f` is 0 ⇔ the text is lexically clean and `FileWF f`.
+    Hypotheses: ERRORs are not switched off (what `C20_errors_always_enabled` proves of every override column the option
+    parser can produce), the lexical diagnostics do not use the silent code, the back end reports nothing, the inheritance
+    nesting bound. -/
+theorem C04_exit0_iff_wellformed (tool : Tool) (fwd : Bool) (amb : Ambient) (ov : Overrides) (f : File) (lex : List Diag)
+    (henab : ∀ c, isErrorCode c = true → enabled ov c = true)
+    (hlex : ∀ d ∈ lex, d.code ≠ LibErrors.SUBORDINATE_FAILED)
+    (hlim : ∀ k, ResolveGen.subsuperDepthLimit = some k → ∀ s ∈ f.schemas, s.decls.length < k) :
+    (runMain tool fwd amb ov (verdict f lex).parse (verdict f lex).resolve []).status = some 0 ↔
+      hasError lex = false ∧ FileWF f := by
+  rw [← file_accepts_iff f lex hlim]
+  have g1 : LibErrors.gateAfterParse = true := by decide
+  have g2 : LibErrors.gateAfterResolve = true := by decide
+  have g3 : LibErrors.gateAfterBackend = true := by decide
+  have f0 : LibErrors.failStatus ≠ 0 := by decide
+  have s0 : succeedStatusOf tool = 0 := by cases tool <;> decide
+  have hp : ∀ d ∈ (verdict f lex).parse, d.code ≠ LibErrors.SUBORDINATE_FAILED := by
+    intro d hd
+    rcases List.mem_append.mp hd with h | h
+    · exact hlex d h
+    · exact (parseDiags_ok f d h).2.2.2
+  have hr : ∀ d ∈ (verdict f lex).resolve, d.code ≠ LibErrors.SUBORDINATE_FAILED := by
+    intro d hd
+    obtain ⟨p, hp⟩ := resolveDiags_ok f d hd
+    exact hp.2.2.2
+  have i1 := report_inv fwd amb ov (verdict f lex).parse emptyRun rfl inv_empty
+  have o1 : (report fwd amb ov (verdict f lex).parse emptyRun).occurred = hasError (verdict f lex).parse := by
+    rw [report_occurred fwd amb ov henab (verdict f lex).parse emptyRun rfl hp]; simp [emptyRun]
+  simp only [runMain, Verdict.rejects, g1, if_true]
+  cases hh1 : (report fwd amb ov (verdict f lex).parse emptyRun).halt with
+  | some h =>
+    have ho := i1.2.1 (by simp [hh1])
+    rw [o1] at ho
+    cases h with
+    | abort => simp [haltResult, ho]
+    | exit rc => have := i1.2.2 rc hh1; subst this; simp [haltResult, f0, ho]
+  | none =>
+    simp only [true_and]
+    cases hpe : hasError (verdict f lex).parse with
+    | true => simp [o1, hpe, failResult, f0]
+    | false =>
+      simp only [o1, hpe, Bool.false_eq_true, if_false, Bool.false_or, Bool.not_false, Bool.true_and]
+      have i2 := report_inv fwd amb ov (verdict f lex).resolve _ hh1 i1
+      have o2 := report_occurred fwd amb ov henab (verdict f lex).resolve _ hh1 hr
+      rw [o1, hpe, Bool.false_or] at o2
+      cases hh2 : (report fwd amb ov (verdict f lex).resolve (report fwd amb ov (verdict f lex).parse emptyRun)).halt with
+      | some h =>
+        have ho := i2.2.1 (by simp [hh2])
+        rw [o2] at ho
+        cases h with
+        | abort => simp [haltResult, ho]
+        | exit rc => have := i2.2.2 rc hh2; subst this; simp [haltResult, f0, ho]
+      | none =>
+        simp only [g2, true_and]
+        cases hre : hasError (verdict f lex).resolve with
+        | true => simp [o2, hre, failResult, f0]
+        | false =>
+          have r3 : (if hasBackend tool = true then
+                report fwd amb ov [] (report fwd amb ov (verdict f lex).resolve (report fwd amb ov (verdict f lex).parse emptyRun))
+              else report fwd amb ov (verdict f lex).resolve (report fwd amb ov (verdict f lex).parse emptyRun)) =
+              report fwd amb ov (verdict f lex).resolve (report fwd amb ov (verdict f lex).parse emptyRun) := by
+            split <;> simp [report]
+          simp only [r3, hh2, o2, hre, g3, Bool.false_eq_true, and_false, if_false, s0]
+
+/-- the same for the whole command line: whatever `-w` / `-i` switches the option parser accepts, each tool exits 0 exactly
+    on the lexically clean, well-formed files (the switches cannot touch ERRORs: `C20_errors_always_enabled`) -/
+theorem C04_command_exit0_iff_wellformed (tool : Tool) (guard fwd : Bool) (amb : Ambient) (sws : List Switch) (ov : Overrides)
+    (hc : configure guard sws = .ok ov) (f : File) (lex : List Diag)
+    (hlex : ∀ d ∈ lex, d.code ≠ LibErrors.SUBORDINATE_FAILED)
+    (hlim : ∀ k, ResolveGen.subsuperDepthLimit = some k → ∀ s ∈ f.schemas, s.decls.length < k) :
+    runCmd tool guard fwd amb sws (verdict f lex).parse (verdict f lex).resolve [] =
+      .ran (runMain tool fwd amb ov (verdict f lex).parse (verdict f lex).resolve []) ∧
+    ((runMain tool fwd amb ov (verdict f lex).parse (verdict f lex).resolve []).status = some 0 ↔
+      hasError lex = false ∧ FileWF f) := by
+  refine ⟨by simp [runCmd, hc], ?_⟩
+  apply C04_exit0_iff_wellformed tool fwd amb ov f lex _ hlex hlim
+  intro c hce
+  apply StepModel.Express.C20.C20_errors_always_enabled guard sws ov hc c
+  have : LibErrors.SEVERITY_WARNING < LibErrors.SEVERITY_ERROR := by decide
+  have hce' : severityOf c ≥ LibErrors.SEVERITY_ERROR := by simpa [isErrorCode, sev] using hce
+  omega
 
 example : ∃ r, dfs false "a" (fun _ => ["a"]) 3 ["a"] [] = some r ∧ r.found = true := ⟨⟨true, [], []⟩, by decide, rfl⟩
 
